@@ -98,6 +98,7 @@ class Registry:
         self.contracts = {}        # qualified name -> [Contract]
         self.ifaces = {}           # (iface cls, method) -> Contract
         self.externs = {}          # name -> Contract
+        self.externs_ctx = {}      # (context, name) -> Contract
         self.inline_ok = set()
         self.globals = {}
         self.hooks = {}
@@ -131,6 +132,10 @@ class Registry:
             con = con()
         con.name = name
         con.assumed = True
+        if getattr(con, 'only_in', None) is not None:
+            # an assumed contract written for one verification context (the oracle set of a function under verification)
+            self.externs_ctx[(con.only_in, name)] = con
+            return con
         self.externs[name] = con
         return con
 
@@ -167,6 +172,8 @@ class Registry:
         return self.ifaces.get((cls, name))
 
     def extern_contract(self, name):
+        if self.context is not None and (self.context, name) in self.externs_ctx:
+            return self.externs_ctx[(self.context, name)]
         return self.externs.get(name)
 
     def module_global(self, mod, name):
